@@ -48,4 +48,4 @@ def run(tier="quick", seed=0, arg=None):
     return {"suite": "generic_spec", "evaluations": evals, "distinct_nontrivial": distinct, "exhaustive": True,
             "rule": "all ordered pairs of (operator, literal) over 4 operators x %d literals (closed under equal/substring/superstring/disjoint/empty) x %d candidates; "
                     "non-trivial = the operation is defined (does not raise NotImplementedError)" % (len(LITS), len(CANDS)),
-            "samples": samples, "failures": fails[:100], "n_failures": len(fails), "bound": "literal pool above"}
+            "samples": samples, "failures": fails[:3000], "n_failures": len(fails), "bound": "literal pool above"}
